@@ -602,7 +602,7 @@ def concrete(prelude_path):
     return out
 
 
-def analyse(prelude_path, tier='quick', scratch=None, only=None, canaries=True):
+def analyse(prelude_path, tier='quick', scratch=None, only=None, canaries=True, arrays=True):
     t0 = time.time()
     out = dict(prelude=prelude_path, z3=z3.get_version_string(), obligations=[], canaries=[], notes={})
     try:
@@ -647,6 +647,9 @@ def analyse(prelude_path, tier='quick', scratch=None, only=None, canaries=True):
         "implement Hash for array<T Hash> (for loop): outside the loop-free subset",
         "implement Hash for string (FNV-1a for loop): outside the loop-free subset",
     ]
+    if arrays and not only:
+        import vcarray
+        out['array'] = vcarray.analyse_array(prelude_path, with_canaries=canaries)
     out['notes']['wall_s'] = round(time.time() - t0, 3)
     return out
 
@@ -660,7 +663,10 @@ def main():
     ap.add_argument('--concrete', action='store_true', help="emit the differential fidelity test instead")
     args = ap.parse_args()
     if args.concrete:
-        print(json.dumps(concrete(args.prelude)))
+        import vcarray
+        d = concrete(args.prelude)
+        d['array'] = vcarray.concrete_array(args.prelude)
+        print(json.dumps(d))
         return 0
     print(json.dumps(analyse(args.prelude, args.tier, args.scratch, args.only)))
     return 0
